@@ -242,14 +242,24 @@ func (l *Lexer) lexString(start rune) {
 	l.val = buf.String()
 }
 
+// a NUL rune inside the input (not the end marker) separates tokens like a
+// space does
+func (l *Lexer) isSkippable(char rune) bool {
+	if char == 0 {
+		return !l.reader.IsEOF()
+	}
+
+	return unicode.IsSpace(char)
+}
+
 func (l *Lexer) skipSpace() {
 	char := l.reader.Read()
-	if unicode.IsSpace(char) {
+	if l.isSkippable(char) {
 		l.IsSpace = true
 	}
 
 	for {
-		if !unicode.IsSpace(char) || char == '\n' {
+		if !l.isSkippable(char) || char == '\n' {
 			break
 		}
 
